@@ -231,6 +231,7 @@ def verify(
 ) -> bool:
     assert r in range(1, N), "r out of range [1, N)"
     assert s in range(1, N), "s out of range [1, N)"
+    assert point is not None and point_is_on_curve(*point), "public key is not a curve point"
     u1 = div_mod_p(digest % N, s, p=N)
     u2 = div_mod_p(r, s, p=N)
     x, y = point_add(point_scalar_mul(u1, G), point_scalar_mul(u2, point))
